@@ -169,6 +169,8 @@
 (defn arg-marks [log]
   (string/join (filter (fn [e] (string/has-prefix? "arg" e)) (string/split ";" log)) ";"))
 
+(def FAR-PAD (seq [i :range [0 260]] (tuple 'def (symbol "pad" i) i)))
+
 (defmacro add [rn form cargs &opt xf] ~(array/push r [,rn (fn [args] [,form ,cargs]) ,(or xf identity)]))
 
 (defn routes [f name n]
@@ -204,6 +206,13 @@
   (add "nontail" (mkfn ps (tuple 'def 'r (tuple f ;ps)) 'r) args)
   (add "drop" (mkfn ps (tuple f ;ps) :dropped) args drop-xform)
   (add "drop-const" (mkfn [] (tuple f ;(map q args)) :dropped) [] drop-xform)
+  # operands and result in far registers (> 255): exercises movf / movn and their treatment by the clean-up passes
+  (add "far"
+       (mkfn ps ;FAR-PAD
+             ;(seq [i :range [0 n]] (tuple 'var (symbol "x" i) (in ps i)))
+             (tuple 'def 'r (tuple f ;(seq [i :range [0 n]] (symbol "x" i))))
+             'r)
+       args)
   # result assigned to a variable that is also an operand (target slot aliases an argument)
   (each k (distinct [0 1 (- n 1)])
     (when (and (>= k 0) (< k n)
